@@ -86,7 +86,8 @@ func (gbf GenBankFields) Slice(start, end int) interface{} {
 		case ok:
 			olap := []gts.Ranged{}
 			for _, loc := range locs {
-				if gts.LocationOverlap(loc, start, end) {
+				// An empty window contains no base of any range.
+				if start < end && gts.LocationOverlap(loc, start, end) {
 					olap = append(olap, loc)
 				}
 			}
